@@ -101,8 +101,12 @@ def shared_entry_projects(st, pat, label, old, new, fmt):
             ents = [("src/*.txt", [a.raw]), ("src/x.txt", [b.raw])]
             if order == "explicit-first":
                 ents.reverse()
+            # look-alike files that the glob `src/*.txt` does NOT name: one level further down, next to it with another suffix, in a
+            # sibling directory, and a hidden one
+            twin = fx.render_old(old).encode("utf-8")
+            others = {"src/deep/x.txt": twin, "src/deep/er/x.txt": twin, "src/x.txt.bak": twin, "src2/x.txt": twin, "src/.x.txt.swp": twin, "x.txt": twin}
             c03.run_project(st, pat, label, old, new, fmt, f"shared-entry:{a.pid}+{b.pid}:{order}", "glob-entry-shared-by-several-files", [fx, fy, fz], ents, False,
-                            want=("bytes", "occurrence"), prefix="C04")
+                            want=("bytes", "occurrence"), prefix="C04", extra_files=others)
         done += 1
         if done >= 3:
             break
